@@ -126,7 +126,21 @@ func main() {
 		fmt.Fprintf(os.Stderr, "unknown check %s\n", id)
 		os.Exit(2)
 	}
-	os.Exit(run(id, tier, cfg, replay, buildOnly))
+	code := run(id, tier, cfg, replay, buildOnly)
+	// build outputs against a scratch copy of eino are single-use: remove them (VERIF_KEEP_BUILD=1 keeps them)
+	if alt := os.Getenv("VERIF_REPO"); alt != "" && alt != "/repo" && os.Getenv("VERIF_KEEP_BUILD") == "" && !buildOnly {
+		tag := fmt.Sprintf("%016x", mon.HashStr(alt))
+		bdir := filepath.Join(root, "build")
+		os.Remove(filepath.Join(bdir, strings.ToLower(id)+"."+tag+".test"))
+		os.Remove(filepath.Join(bdir, "go."+tag+".mod"))
+		os.Remove(filepath.Join(bdir, "go."+tag+".sum"))
+		for _, t := range []string{"quick", "thorough"} {
+			if t == tier && code == 0 {
+				os.RemoveAll(filepath.Join(bdir, fmt.Sprintf("run-%s-%s-%s", strings.ToLower(id), t, tag)))
+			}
+		}
+	}
+	os.Exit(code)
 }
 
 func build(id string, cfg checkCfg) (string, error) {
